@@ -9,6 +9,9 @@ import (
 	"encoding/json"
 	"fmt"
 	"os"
+	"path/filepath"
+	"sort"
+	"strings"
 
 	"github.com/cloudwego/hertz/cmd/hz/generator"
 	"github.com/cloudwego/hertz/cmd/hz/meta"
@@ -50,11 +53,19 @@ func (o Opts) String() string {
 type Case struct {
 	Routes []Route `json:"routes"`
 	Opts   Opts    `json:"opts"`
+	// Before > 0: an update. The project was generated before (hz new, its own process, files written to disk) from the
+	// first Before routes; the case is the second run (hz update, its own process, same directory) with all the routes.
+	// What is validated is the project directory as it stands after the second run.
+	Before int `json:"before,omitempty"`
 }
 
 type Job struct {
 	Case Case   `json:"case"`
 	Proj string `json:"proj,omitempty"`
+	// Persist: write the generated files into the working directory (the process was started in the project directory);
+	// Collect: answer with every .go file found below the working directory afterwards instead of the files of this run
+	Persist bool `json:"persist,omitempty"`
+	Collect bool `json:"collect,omitempty"`
 }
 
 type File struct {
@@ -78,7 +89,9 @@ func HandlerDirOf(nameIndex int) string {
 }
 
 // Generate drives the generator the way thrift/plugin.go and protobuf/plugin.go do.
-func Generate(cs Case, proj string) (res Result) {
+func Generate(cs Case, proj string) (res Result) { return generate(cs, proj, false, false) }
+
+func generate(cs Case, proj string, persist, collect bool) (res Result) {
 	defer func() {
 		if r := recover(); r != nil {
 			res.Panic = fmt.Sprint(r)
@@ -93,7 +106,7 @@ func Generate(cs Case, proj string) (res Result) {
 		HandlerDir:           meta.HandlerDir,
 		RouterDir:            meta.RouterDir,
 		ModelDir:             meta.ModelDir,
-		CmdType:              meta.CmdNew,
+		CmdType:              map[bool]string{false: meta.CmdNew, true: meta.CmdUpdate}[collect],
 		SortRouter:           cs.Opts.Sort,
 		SnakeStyleMiddleware: cs.Opts.Snake,
 		HandlerByMethod:      cs.Opts.ByMethod,
@@ -134,8 +147,35 @@ func Generate(cs Case, proj string) (res Result) {
 		res.Err = "GetFormatAndExcludedFiles: " + err.Error()
 		return res
 	}
+	tpl := map[string]string{}
 	for _, f := range files {
 		res.Files = append(res.Files, File{Path: f.Path, Content: f.Content, Tpl: f.FileTplName})
+		tpl[filepath.Clean(f.Path)] = f.FileTplName
+	}
+	if persist {
+		if err := g.Persist(); err != nil {
+			res.Err = "Persist: " + err.Error()
+			return res
+		}
+	}
+	if collect {
+		res.Files = nil
+		err := filepath.Walk(".", func(p string, info os.FileInfo, err error) error {
+			if err != nil || info.IsDir() || !strings.HasSuffix(p, ".go") {
+				return err
+			}
+			b, err := os.ReadFile(p)
+			if err != nil {
+				return err
+			}
+			p = filepath.ToSlash(filepath.Clean(p))
+			res.Files = append(res.Files, File{Path: p, Content: string(b), Tpl: tpl[p]})
+			return nil
+		})
+		if err != nil {
+			res.Err = "collect: " + err.Error()
+		}
+		sort.Slice(res.Files, func(i, j int) bool { return res.Files[i].Path < res.Files[j].Path })
 	}
 	return res
 }
@@ -152,7 +192,7 @@ func WorkerMain() {
 		fmt.Fprintln(os.Stderr, "c16 worker: bad job:", err)
 		os.Exit(4)
 	}
-	res := Generate(jb.Case, jb.Proj)
+	res := generate(jb.Case, jb.Proj, jb.Persist, jb.Collect)
 	b, _ := json.Marshal(res)
 	os.Stdout.WriteString("R " + string(b) + "\n")
 }
